@@ -1,6 +1,7 @@
 package world
 
 import (
+	pb "github.com/wealdtech/eth2-signer-api/pb/v1"
 	"context"
 	"crypto/sha256"
 	"encoding/hex"
@@ -220,8 +221,18 @@ func NewBase(ctx context.Context, spec Spec, log *Log, ctl *Control) (*Base, err
 }
 
 // Stack is the part of a world built on one slashing database directory.
+// SignerAPI is the signing surface of a Dirk instance: the in-process gRPC handler, or a gRPC client of the real binary.
+type SignerAPI interface {
+	Sign(ctx context.Context, req *pb.SignRequest) (*pb.SignResponse, error)
+	Multisign(ctx context.Context, req *pb.MultisignRequest) (*pb.MultisignResponse, error)
+	SignBeaconAttestation(ctx context.Context, req *pb.SignBeaconAttestationRequest) (*pb.SignResponse, error)
+	SignBeaconAttestations(ctx context.Context, req *pb.SignBeaconAttestationsRequest) (*pb.MultisignResponse, error)
+	SignBeaconProposal(ctx context.Context, req *pb.SignBeaconProposalRequest) (*pb.SignResponse, error)
+}
+
 type Stack struct {
 	B        *Base
+	Sig      SignerAPI
 	Rules    *standardrules.Service
 	RulesW   rules.Service
 	Signer   *standardsigner.Service
@@ -265,6 +276,7 @@ func NewStack(ctx context.Context, b *Base, dir string, proc process.Service) (*
 	if st.SignerH, err = signerhandler.New(sctx, signerhandler.WithSigner(sg)); err != nil {
 		return nil, err
 	}
+	st.Sig = st.SignerH
 	ls, err := standardlister.New(sctx, standardlister.WithFetcher(b.Fetcher), standardlister.WithChecker(b.Checker), standardlister.WithRuler(rw))
 	if err != nil {
 		return nil, err
